@@ -88,7 +88,11 @@ impl Serialize for Number {
             map.serialize_entry("val", &self.value)?;
             map.serialize_entry("unit", unit.symbol())?;
             map.end()
-        } else if self.value.fract() == 0.0 {
+        } else if self.value.fract() == 0.0
+            && self.value >= i64::MIN as f64
+            && self.value < i64::MAX as f64
+            && !(self.value == 0.0 && self.value.is_sign_negative())
+        {
             serializer.serialize_i64(self.value as i64)
         } else {
             serializer.serialize_f64(self.value)
